@@ -615,11 +615,13 @@ class ExprMixin:
         nfacts0 = len(s0.facts)
         saved_locals = dict(st.locals)
         results = []
+        filter_trivial = True      # the `if` clause is concretely true for every element (e.g. `if mr is not None`)
         for s2, c in self.assign(g.target, seq.elem(k), s0, fx):
             if c is not None:
                 results.append((s2, Raised(c[1]), None))
                 continue
             conds = [(s2, True)]
+            nf_before = len(s2.facts)
             for cond in g.ifs:
                 n2 = []
                 for s3, ok in conds:
@@ -628,6 +630,8 @@ class ExprMixin:
                     else:
                         n2.append((s3, ok))
                 conds = n2
+            if not (len(conds) == 1 and conds[0][1] is True and len(conds[0][0].facts) == nf_before):
+                filter_trivial = False
             for s3, ok in conds:
                 if isinstance(ok, Raised):
                     results.append((s3, ok, None))
@@ -706,7 +710,7 @@ class ExprMixin:
                     v = SIte(subst(cond, kk), self.subst_value(val, k, kk, s, sres), v)
                 return v
 
-            if not g.ifs:
+            if not g.ifs or filter_trivial:
                 lst = SList(seq.length, elem_at, desc='comp over ' + seq.desc)
                 lst.base = seq
             else:
